@@ -233,6 +233,16 @@ void profile_twin(RunCtx& ctx)
         c.newxta = !m.old_syntax;
         c.bytes = *sd.bytes;
         c.sched = ctx.draw_sched(rng, false);
+        if (c.entry == E_XTA_FILE && rng.chance(0.3)) {
+            // a read interrupted by a signal before it delivered anything is retried by the scanner: the delivery stays
+            // unobservable. (Only the first read: an interruption in the middle of an fread leaves the stream's error
+            // flag set, and the flex-generated reader then reports "input in flex scanner failed" at the end of the file
+            // - allowed by C01, and not a matter of the input format.)
+            c.sched = Sched{};
+            c.sched.fault_kind = IO_EINTR;
+            c.sched.fault_at = 1;
+            ctx.count("twin-xta-file-reads-interrupted");
+        }
         c.ceiling = default_ceiling(c.bytes.size());
         int st = step++;
         if (!ctx.keep(st))
